@@ -48,6 +48,10 @@ type Layout struct {
 	// TestMainAt: where the go-test generated main lies: 0 under no root (go build temp dir),
 	// 1 below the first GOPATH's src, 2 below the first module, 3 below the Go root's src.
 	TestMainAt int
+	// Toolchain: the Go root lies inside the first GOPATH's module cache, locally and remotely
+	// (what GOTOOLCHAIN=auto downloads). Which roots get detected then depends on the order of
+	// the files, so such a layout is checked by the validity rules only.
+	Toolchain bool `json:",omitempty"`
 }
 
 // fileTruth is the expected resolution of one remote path.
@@ -65,9 +69,14 @@ type fileTruth struct {
 	ImportFromFunc bool
 }
 
+const toolchainDir = "/pkg/mod/golang.org/toolchain@v0.0.1-go1.22.5.linux-amd64"
+
 func (l *Layout) localGoroot(base string) string {
 	if l.GorootRemote == "" {
 		return ""
+	}
+	if l.Toolchain && len(l.Gopaths) > 0 {
+		return base + "/gp0" + toolchainDir
 	}
 	return base + "/goroot"
 }
@@ -91,7 +100,7 @@ func dirOf(rel string) string {
 func (l *Layout) truths(base string) []fileTruth {
 	var out []fileTruth
 	for _, f := range l.Goroot {
-		out = append(out, fileTruth{Remote: l.GorootRemote + "/src/" + f.Rel, Local: base + "/goroot/src/" + f.Rel, Rel: f.Rel, Import: dirOf(f.Rel), Loc: stack.Stdlib, Present: f.Present, Known: true, ImportFromFunc: dirOf(f.Rel) == ""})
+		out = append(out, fileTruth{Remote: l.GorootRemote + "/src/" + f.Rel, Local: l.localGoroot(base) + "/src/" + f.Rel, Rel: f.Rel, Import: dirOf(f.Rel), Loc: stack.Stdlib, Present: f.Present, Known: true, ImportFromFunc: dirOf(f.Rel) == ""})
 	}
 	for i, g := range l.Gopaths {
 		lp := fmt.Sprintf("%s/gp%d", base, i)
@@ -145,7 +154,7 @@ func (l *Layout) materialise(base string) error {
 	}
 	// Roots exist even when empty.
 	if l.GorootRemote != "" {
-		_ = os.MkdirAll(base+"/goroot/src", 0o755)
+		_ = os.MkdirAll(l.localGoroot(base)+"/src", 0o755)
 	}
 	for i := range l.Gopaths {
 		_ = os.MkdirAll(fmt.Sprintf("%s/gp%d/src", base, i), 0o755)
@@ -163,7 +172,7 @@ func isFileLocal(p string) bool {
 func (l *Layout) ambiguous(base string, refs []fileTruth) bool {
 	var roots []string
 	if l.GorootRemote != "" {
-		roots = append(roots, base+"/goroot/src")
+		roots = append(roots, l.localGoroot(base)+"/src")
 	}
 	for i := range l.Gopaths {
 		roots = append(roots, fmt.Sprintf("%s/gp%d/src", base, i), fmt.Sprintf("%s/gp%d/pkg/mod", base, i))
@@ -370,6 +379,10 @@ func genLayout(t *rapid.T, nested bool) Layout {
 		if len(roots) > 0 {
 			l.Extra = append(l.Extra, rapid.SampledFrom(roots).Draw(t, "shortRoot")+rapid.SampledFrom([]string{"/z.s", "/a.go", "x.s", "/s.c", ".go"}).Draw(t, "shortTail"))
 		}
+	}
+	if l.GorootRemote != "" && len(l.Gopaths) > 0 && len(l.Goroot) > 0 && oneIn(t, 8, "toolchainInModCache") {
+		l.Toolchain = true
+		l.GorootRemote = l.Gopaths[0].Remote + toolchainDir
 	}
 	l.TestMain = oneIn(t, 4, "testmain")
 	l.TestMainAt = rapid.IntRange(0, 3).Draw(t, "testmainAt")
